@@ -99,7 +99,7 @@ def function_results(vjson):
     return res
 
 
-def classify_diag(d, linemap):
+def classify_diag(d, linemap, text_lines=None):
     """Map one rustc/Verus diagnostic to a dict describing it."""
     msg = d.get('message', '')
     level = d.get('level')
@@ -145,6 +145,15 @@ def classify_diag(d, linemap):
     if region is None and site:
         region = site['info'].get('region')
     safety = any(s in msg for s in SAFETY)
+    if safety and 'precondition not' in msg and clause is not None and text_lines is not None:
+        # the failed precondition of a PROOF function (a lemma of the contract's own argument) is a functional obligation, not a
+        # run-time safety condition: find the header of the function the clause belongs to
+        for l2 in range(clause['line'], max(0, clause['line'] - 60), -1):
+            t2 = text_lines[l2 - 1] if 0 < l2 <= len(text_lines) else ''
+            if re.search(r'\bfn\s+\w+', t2):
+                if re.search(r'\bproof\s+fn\b', t2):
+                    safety = False
+                break
     if 'precondition not satisfied' in msg and clause is not None and clause['info'].get('region', '').startswith(('unit', 'stub', 'finding')):
         # precondition of an in-repo callee: a functional obligation of the caller
         safety = True
@@ -162,6 +171,7 @@ def run_template(tpath, open_findings=(), rlimit=None, seed=None, tag=''):
         fh.write(text)
     r = run_verus(out, rlimit, seed)
     fr = function_results(r['json'])
-    issues = [c for c in (classify_diag(d, linemap) for d in r['diags']) if c]
+    tl = text.split('\n')
+    issues = [c for c in (classify_diag(d, linemap, tl) for d in r['diags']) if c]
     return dict(template=info['template'], emitted=out, info=info, linemap=linemap, verus=r, functions=fr, issues=issues,
                 summary=(r['json'] or {}).get('verification-results'))
